@@ -196,7 +196,7 @@ def search(ctx):
         if not f and rng.random() < 0.2: f = gen.freshness(rng, s, {'area': lambda x: x.area})
         if len(samples) < 1: samples.append({'segment': gen.seg_json(s), 't': t})
         if f: fails.append({'class': 'C10-segment', 'what': f[0], 'input': {'segment': gen.seg_json(s), 't': t}, 'observed': f, 'expected': 'area = integral of y dx; additive; negated by reversal; elevation-invariant'})
-    for _ in range(ctx.n(70, 2000)):
+    for _ in range(ctx.n(40, 400)):
         simple = rng.random() < 0.6
         path = star_contour(rng, ccw=True) if simple else random_closed(rng)
         ev += 1
@@ -207,7 +207,7 @@ def search(ctx):
         seen.add(('path', tuple(gen.seg_key(s) for s in path.asSegments())))
         if len(samples) < 2: samples.append({'path': path_json(path), 'simple_ccw': simple})
         if f: fails.append({'class': 'C10-path', 'what': f[0], 'input': {'path': path_json(path), 'simple_ccw': simple, 'seed2': seed2}, 'observed': f, 'expected': 'C10 closed-path clauses'})
-    for _ in range(ctx.n(60, 1500)):
+    for _ in range(ctx.n(30, 250)):
         kind = rng.choice(['rect', 'ellipse', 'circle'])
         a = rng.choice([float(rng.randint(1, 5000)), rng.uniform(1, 5000)]); b = rng.choice([float(rng.randint(1, 5000)), rng.uniform(1, 5000)])
         o = rng.choice([None, P(rng.uniform(-5000, 5000), rng.uniform(-5000, 5000))])
